@@ -12,7 +12,7 @@ Mirrors, definition by definition,
 * `fcppt/cyclic_iterator_impl.hpp`      : `advance` (C++ truncating `%`), `increment`, `decrement`, `distance_to`
 * `fcppt/container/grid/spiral_iterator_impl.hpp`, `spiral_range_impl.hpp`
 * `fcppt/container/grid/moore_neighbors.hpp`, `neumann_neighbors.hpp`
-* `fcppt/iterator/range_impl.hpp`, `iterator/adapt_range.hpp`, `iterator/make_range.hpp`
+* `fcppt/iterator/range_impl.hpp`, `iterator/adapt_range.hpp`, `iterator/make_range.hpp`, `iterator/range_comparison.hpp`
 * `fcppt/range/size.hpp`                : `to_unsigned(std::distance(begin, end))`
 * `fcppt/math/int_range_count.hpp`      : the static list `0 .. Count-1`
 * `fcppt/iterator/base_impl.hpp`        : the loop `for (it = begin(); it != end(); ++it) *it` that every range-for performs
@@ -107,6 +107,26 @@ def rangeSize (diffTy : IntTy) (n : Nat) : M Int :=
   if diffTy.trapping && decide (diffTy.hi < (n : Int)) then .error .signedOverflow
   else .ok (diffTy.toUnsigned.wrap (diffTy.wrap n))
 
+/-! ## `int_iterator` / `enum_::iterator` used directly, and the operations every fcppt iterator inherits from
+`iterator::base` (`base_impl.hpp`): `operator==` = `equal`, `operator!=` = `!(a == b)`, `operator++(int)` =
+`derived temp{get()}; ++*this; return temp;`, `swap` = `std::swap(get(), other.get())`. -/
+
+/-- `int_iterator::equal` / `enum_::iterator::equal`: `value_ == other.value_` -/
+def IntIter.equal (a b : Int) : Bool := decide (a = b)
+/-- `iterator::base::operator!=` -/
+def IntIter.notEqual (a b : Int) : Bool := !IntIter.equal a b
+/-- `it++`: (the returned copy, the iterator afterwards) -/
+def IntIter.postIncr (t : IntTy) (v : Int) : M (Int × Int) :=
+  match incr t v with
+  | .ok v' => .ok (v, v')
+  | .error e => .error e
+/-- `a.swap(b)` / `fcppt::iterator::swap(a, b)`: `std::swap` of the two derived objects -/
+def swapPair {α : Type} (p : α × α) : α × α := (p.2, p.1)
+
+/-- an `iterator::range` whose iterators are `int_iterator`s (`iterator::make_range(int_iterator(b), int_iterator(e))`):
+the same loop as `int_range`'s, but there is **no clamp** -/
+def intIterRange (t : IntTy) (b e : Int) (fuel : Nat) : M (List Int) := intLoop t e fuel b
+
 /-! ## enum ranges.  An enum is its number of enumerators `n` and the width `w` of its `size_type`
 (`std::make_unsigned_t<std::underlying_type_t<Enum>>`); an enumerator is its value. -/
 
@@ -157,6 +177,35 @@ def Cyc.advance (c : Cyc) (n : Int) : M Cyc :=
 
 /-- `distance_to(other)` = `std::distance(it_, other.it_)` -/
 def Cyc.distanceTo (c o : Cyc) : Int := o.it - c.it
+
+/-- `equal(other)`: `it_ == other.it_` — the boundaries are **not** compared -/
+def Cyc.equal (c o : Cyc) : Bool := decide (c.it = o.it)
+/-- `iterator::base::operator-(a, b)` = `b.distance_to(a)` -/
+def Cyc.sub (a b : Cyc) : Int := b.distanceTo a
+/-- `operator<(l, r)` = `(r - l) > 0` -/
+def Cyc.lt (l r : Cyc) : Bool := decide (0 < Cyc.sub r l)
+/-- `operator>(l, r)` = `r < l` -/
+def Cyc.gt (l r : Cyc) : Bool := Cyc.lt r l
+/-- `operator<=(l, r)` = `!(l > r)` -/
+def Cyc.le (l r : Cyc) : Bool := !Cyc.gt l r
+/-- `operator>=(l, r)` = `!(l < r)` -/
+def Cyc.ge (l r : Cyc) : Bool := !Cyc.lt l r
+
+/-- `cyclic_iterator()`: `it_{}`, `boundary_{It{}, It{}}` — all three are the value-initialised (singular) container
+iterator, written as position `0`; the boundary is empty -/
+def Cyc.default : Cyc := ⟨0, 0, 0⟩
+
+/-- `std::ptrdiff_t`, the `difference_type` of the container iterators -/
+def ptrdiffTy : IntTy := ⟨true, 64⟩
+
+/-- `advance` with the arithmetic of the real `difference_type`: `size` is computed first (cannot fault), then
+`distance(first, it_) + _diff` (signed overflow is undefined), then `% size` (division by zero is undefined) -/
+def Cyc.advance64 (c : Cyc) (n : Int) : M Cyc :=
+  if ¬ ptrdiffTy.InRange (c.it - c.first + n) then .error .signedOverflow else c.advance n
+
+/-- `iterator::base::operator-=(d)` = `*this += -d`: the negation itself overflows for the minimum -/
+def Cyc.subAssign64 (c : Cyc) (n : Int) : M Cyc :=
+  if ¬ ptrdiffTy.InRange (-n) then .error .signedOverflow else c.advance64 (-n)
 
 /-- a history of iterator operations: `++it`, `--it`, `it += n` (`it -= n` is `it += -n`, see iterator/base_impl.hpp) -/
 inductive CycOp where
@@ -229,6 +278,63 @@ def spiralLoop (endCur : Pos) : Nat → Spiral → M (List Pos)
 def spiralRange (start : Pos) (dist : Int) (fuel : Nat) : M (List Pos) :=
   spiralLoop ⟨start.x - 1, start.y - dist⟩ fuel (Spiral.init start dist)
 
+/-! ### the spiral in the arithmetic of the coordinate type (`int` / `long`: overflow is undefined behaviour) -/
+
+/-- `a + b` in the type `t` -/
+def addT (t : IntTy) (a b : Int) : M Int :=
+  if t.trapping && !decide (t.InRange (a + b)) then .error .signedOverflow else .ok (t.wrap (a + b))
+
+/-- `spiral_iterator::increment`, every arithmetic operation in the coordinate type, in program order:
+`++cur_dist_`, `cur_.y() - 1`, `++step_`, `cur_.x() += dir_.x()`, `cur_.y() += dir_.y()` -/
+def Spiral.incrementT (t : IntTy) (s : Spiral) : M Spiral :=
+  let turn : M Spiral :=
+    if s.step = s.curDist then
+      let swapped : Pos := ⟨s.dir.y, s.dir.x⟩
+      let dir' : Pos := ⟨swapped.x, -swapped.y⟩
+      if dir' = ⟨-1, 1⟩ then
+        match addT t s.curDist 1 with
+        | .error e => .error e
+        | .ok cd =>
+          match addT t s.cur.y (-1) with
+          | .error e => .error e
+          | .ok y => .ok { s with dir := dir', curDist := cd, cur := ⟨s.cur.x, y⟩, step := 0 }
+      else .ok { s with dir := dir', step := 0 }
+    else .ok s
+  match turn with
+  | .error e => .error e
+  | .ok s1 =>
+    match addT t s1.step 1 with
+    | .error e => .error e
+    | .ok st =>
+      match addT t s1.cur.x s1.dir.x with
+      | .error e => .error e
+      | .ok x =>
+        match addT t s1.cur.y s1.dir.y with
+        | .error e => .error e
+        | .ok y => .ok { s1 with step := st, cur := ⟨x, y⟩ }
+
+def spiralLoopT (t : IntTy) (endCur : Pos) : Nat → Spiral → M (List Pos)
+  | 0, _ => .error .fuel
+  | f + 1, s =>
+    if s.cur = endCur then .ok []
+    else
+      match s.incrementT t with
+      | .error e => .error e
+      | .ok s' =>
+        match spiralLoopT t endCur f s' with
+        | .error e => .error e
+        | .ok r => .ok (s.cur :: r)
+
+/-- `for (pos p : make_spiral_range(start, dist))`: `end()` = `Pos(start_.x() - 1, start_.y() - dist_)` is computed
+(in the coordinate type) before the loop starts -/
+def spiralRangeT (t : IntTy) (start : Pos) (dist : Int) (fuel : Nat) : M (List Pos) :=
+  match addT t start.x (-1) with
+  | .error e => .error e
+  | .ok ex =>
+    match addT t start.y (-dist) with
+    | .error e => .error e
+    | .ok ey => spiralLoopT t ⟨ex, ey⟩ fuel (Spiral.init start dist)
+
 /-- `neumann_neighbors(p)` in the order of the returned array -/
 def neumann (t : IntTy) (p : Pos) : M (List Pos) :=
   match pred t p.x, incr t p.x, pred t p.y, incr t p.y with
@@ -259,6 +365,11 @@ structure IterRange where
 def iterMakeRange (b e : Nat) : IterRange := ⟨b, e⟩
 /-- `adapt_range(c)` = `range{range::begin(c), range::end(c)}` -/
 def adaptRange {α : Type} (c : List α) : IterRange := ⟨0, c.length⟩
+
+/-- `iterator/range_comparison.hpp`: `l.begin() == r.begin() && l.end() == r.end()` -/
+def IterRange.equal (l r : IterRange) : Bool := decide (l.begin_ = r.begin_) && decide (l.end_ = r.end_)
+/-- `!(l == r)` -/
+def IterRange.notEqual (l r : IterRange) : Bool := !IterRange.equal l r
 
 /-- `for (it = r.begin(); it != r.end(); ++it) emit(*it)` on the container `c` -/
 def iterLoop {α : Type} (c : List α) (end_ : Nat) : Nat → Nat → M (List α)
